@@ -1164,6 +1164,51 @@ def hs_insert(vm, m, callee, args):
     return BoolVal(True)
 
 
+@native(r'^<std::collections::HashSet<.*> as Extend<.*>>::extend::<', 'HashSet::extend(iter): inserts every item the iterator yields (one fork per subset of a filtered stream)')
+def hs_extend(vm, m, callee, args):
+    import itertools as _it
+    items, pan = it_items(vm, m, args[1])
+    sym = [k for k, (c, _) in enumerate(items) if is_concrete_bool(c) is not True]
+    if len(sym) > 4:
+        raise Unsupported('HashSet::extend over more than 4 conditional items')
+
+    def doer(choice):
+        def run(m2, a2):
+            h = dv(vm, a2[0])
+            for k, (c, x) in enumerate(items):
+                if k in sym and not choice[sym.index(k)]:
+                    continue
+                if is_concrete_bool(c) is False:
+                    continue
+                h.fields[0].items.append(dv(vm, x) if isinstance(x, Ref) else x)
+            return UNIT
+        return run
+    alts = []
+    for choice in _it.product((True, False), repeat=len(sym)):
+        cond = And([items[k][0] if ch else Not(items[k][0]) for k, ch in zip(sym, choice)]) if sym else BoolVal(True)
+        alts.append((cond, doer(choice)))
+    if len(alts) == 1:
+        return alts[0][1](m, args)
+    raise NativeFork(alts)
+
+
+@native(r' as Iterator>::try_fold::<', 'Iterator::try_fold(init, f) with f returning a Result: folds until the first Err')
+def it_try_fold(vm, m, callee, args):
+    items, pan = it_items(vm, m, args[0])
+    if any(is_concrete_bool(c) is not True for c, _ in items):
+        raise Unsupported('try_fold over a filtered stream')
+    acc = args[1]
+    for _, x in items:
+        r, p = call_closure(vm, m, args[2], [acc, x])
+        r = dv(vm, r) if isinstance(r, Ref) else r
+        if not isinstance(r, Enum) or r.ty not in ('Result', 'ControlFlow', 'Option'):
+            raise Unsupported('try_fold step returned %r' % (r,))
+        if r.variant in ('Err', 'Break', 'None'):
+            return r
+        acc = r.fields[0]
+    return Enum('Result', 'Ok', [acc])
+
+
 @native(r'^std::collections::HashSet::<.*>::len$', 'HashSet::len = number of pairwise-distinct members')
 def hs_len(vm, m, callee, args):
     h = dv(vm, args[0])
